@@ -16,8 +16,11 @@ CLAIMS = {
   text="Bounded model checking (CBMC) of the real request life-cycle control code, decided modularly: ares_cancel/end_query/"
        "ares_free_query/ares_requeue_query from an arbitrary valid link state with callbacks that re-enter ares_cancel or "
        "start requests; the whole search state machine (ares_search.c) one step at a time with ares_send_nolock as a "
-       "contract stub covering every status code. Exactly-once completion is a ghost counter; use-after-release and "
-       "double free are CBMC pointer checks; counterexamples are replayed natively under ASan.",
+       "contract stub covering every status code; one level of ares_send_query / ares_close_connection / read_answers / "
+       "ares_destroy with re-entrant callbacks; the getaddrinfo walk one step at a time; the compound entry points "
+       "(ares_query, gethostbyaddr, getnameinfo, gethostbyname(_file)) start and completion steps. Exactly-once "
+       "completion is a ghost counter; use-after-release and double free are CBMC pointer checks; counterexamples are "
+       "replayed natively under ASan.",
   design="DESIGN.md §4 C01",
   note="Assumes the module contracts listed in the evidence (reference containers slist_ref/szvp_ref, abstract DNS records, "
        "G-send contract of ares_send_nolock, induction hypothesis for nested search callbacks); <= 2 (quick) / 3 (thorough) "
@@ -27,8 +30,10 @@ CLAIMS = {
        "timeadd, ares_timedout) for ALL option values in their legal int ranges, all try counts within the retry budget, "
        "arbitrary metrics history and jitter: no shift/overflow/conversion UB, result within [base, maxtimeout].",
   design="DESIGN.md §4 C06",
-  note="Assumes clock within [0,2^40] s, 1..16 servers; retry-budget induction harness (c06_budget) not yet built: the "
-       "claim covers the timeout computation half of the property only."),
+  note="Assumes clock within [0,2^40] s, 1..16 servers. The retry-budget half is assembled from one-step obligations "
+       "(requeue_step: budget check and try accounting; answer_step: one EDNS downgrade / one TCP upgrade outside the "
+       "budget; flush_requeue_two: every deferred resend handed on exactly once; C17 validate jobs: <= 3 BADCOOKIE "
+       "resends) listed in harness/C06/jobs.py; their composition over whole histories is by induction, not a run."),
  "C20": dict(
   text="Bounded model checking (CBMC) of the real transport code as two one-step obligations from ARBITRARY buffer states: "
        "(A) read_answers delivers exactly the complete frames present, whole/in order/once, keeping the incomplete tail; "
@@ -39,7 +44,8 @@ CLAIMS = {
   design="DESIGN.md §4 C20",
   note="Assumes the virtual socket layer (vsock.c) behind channel->sock_funcs, reference containers, parser replaced by a "
        "recorder; buffers <= 12 bytes, chunks <= 5 bytes; read window reduced to 16 by the guarded hook "
-       "CARES_VERIF_READ_WINDOW; the truncation (TC) retry rule is checked in C05's acceptance harness once built."),
+       "CARES_VERIF_READ_WINDOW; the truncation (TC) retry rule is the answer_step jobs, the frame queueing / rollback on a "
+       "failed serialisation the framing_placement jobs (shared with C05 / C03)."),
  "C17": dict(
   text="Bounded model checking (CBMC) of the whole real ares_cookie.c: ONE ares_cookie_apply or ONE ares_cookie_validate from "
        "an ARBITRARY cookie state (all four states, arbitrary cookies/timestamps/addresses), symbolic clock, transport, "
@@ -106,7 +112,8 @@ CLAIMS = {
        "descriptor protocol and the udp_max_queries limit.",
   design="DESIGN.md §4 C10",
   note="Histories are covered inductively (one step from an arbitrary valid connection set, <= 2 servers x <= 2 "
-       "connections); ares_sortaddrinfo's probe sockets and ares_destroy teardown are not yet covered."),
+       "connections). Also: the RFC 6724 probe socket of ares_sortaddrinfo (src_probe_*), ares_destroy / close teardown, "
+       "process_write, and the library's own default socket functions (default_asocket never leaks the kernel descriptor)."),
  "C03": dict(
   text="Bounded model checking (CBMC) of the real record/codec code (no stubs): per RR type build through the public setters "
        "with symbolic values -> ares_dns_write -> <= 65535 -> ares_dns_parse -> every key equal through the public getters -> "
@@ -133,19 +140,25 @@ CLAIMS = {
        "handlers, results within documented ranges.",
   design="DESIGN.md §4 C15",
   note="ares_array replaced by a fixed-capacity reference in these jobs; ares_inet_pton contract-stubbed in the deeper jobs "
-       "(real converter checked separately); ares_uri.c, hosts file, nsswitch/svc.conf readers outside the claim."),
+       "(real converter checked separately). The dns:// name server form (URI parser itself abstract), nsswitch.conf / svc.conf "
+       "lines, the multi-line driver and the hosts-file reader (concrete files only: arbitrary hosts bytes did not close) are "
+       "covered by the c15_nsuri / c15_nsswitch / c15_svcconf / c15_procbuf / c15_cfgfile / c15_hosts jobs; ares_uri.c's own "
+       "tokenizer is outside the claim."),
  "C16": dict(
   text="Bounded model checking (CBMC): ares_sysconfig_apply never changes a field whose option bit is set (symbolic mask and "
        "values); ares_save_options -> ares_init_by_options reproduces every saved field; server address text render/parse "
        "round trip; inet_ntop/pton on all 2^32 IPv4 addresses; ares_dup copies the non-option settings.",
   design="DESIGN.md §4 C16",
-  note="Server text round trip proved in two halves meeting at a text model; dns:// URI form (differing ports) outside the claim; "
-       "heavy setters are recorders in the user-wins kernel."),
+  note="Server text round trip proved in two halves meeting at a text model; dns:// URI rendering (differing ports) outside the "
+       "claim; heavy setters are recorders in the user-wins kernel. c16_initopts establishes the reachable-state invariant the "
+       "other jobs assume; c16_servers_update_* compare the resulting server list entry by entry; c16_sockfuncs_install "
+       "checks the function table the link-local interface handling depends on."),
  "C18": dict(
   text="Differential bounded model checking (CBMC): each of the 11 legacy ares_parse_*_reply functions against the record "
        "API on the same symbolic-valued message shapes (1-2 answers, optional CNAME, truncation / RDLENGTH faults): "
        "malformed iff the record parser rejects, results equal in order and field by field, caller capacity never "
-       "exceeded (exact-size arrays), everything released by the matching free function; ares_data type tags.",
+       "exceeded (exact-size arrays), everything released by the matching free function; alias chains of two; an allocation "
+       "failing during the conversion gives ENOMEM with nothing returned or the complete answer; ares_data type tags.",
   design="DESIGN.md §4 C18",
   note="Shapes with concrete names/types; TTLs < 2^31. Open known finding legacy_nodata_success (pinned by the repository's "
        "own tests)."),
@@ -166,7 +179,8 @@ CLAIMS = {
        "capacity; ares_dns_addr_to_ptr for all IPv4 (digit-shape enumeration) and IPv6 addresses; localhost rule.",
   design="DESIGN.md §4 C13",
   note="Socket probes of find_src_addr are contract stubs; libc qsort replaced by a reference sort; end-to-end "
-       "ares_getaddrinfo with hosts file outside the claim. Open known finding sort_compare_nontransitive."),
+       "ares_getaddrinfo outside the claim (its completion step is the gai_walk jobs, the hosts-file entry conversion the "
+       "c13_hosts_entry jobs). Open known finding sort_compare_nontransitive."),
  "C11": dict(
   text="Bounded model checking (CBMC) of the LOCKING DISCIPLINE and of two-thread slices by context-bounded "
        "sequentialisation (thread B's whole call runs at a synchronisation point of thread A): every public entry point "
@@ -186,7 +200,9 @@ CLAIMS = {
        "destroyable, allocator ledger back to its entry value, callbacks exactly once.",
   design="DESIGN.md §4 C14",
   note="One failure per call; allocation counts per scenario are measured natively and BOUND-checked; whole "
-       "ares_init_options / ares_reinit / end-to-end getaddrinfo and the file readers under failure are outside the claim."),
+       "ares_init_options / ares_reinit / end-to-end getaddrinfo and the file readers under failure are outside the claim. "
+       "Added: process_answer / ares_requeue_query / ares_send_query steps and name presentation with a concrete failing "
+       "allocation index."),
 }
 NA = {}
 for i in range(1, 21):
